@@ -65,7 +65,7 @@ async function check (job, resp, reparse) {
   const violations = []
   const k = kind(resp)
   const out = { k }
-  const sigBase = job.meta.placement ? `catalog:${job.meta.placement}:${job.meta.form}` : (job.meta.kind === 'corpus' ? 'corpus:' + job.meta.name : job.meta.asi !== undefined ? 'asi:' + job.meta.asi : job.meta.kind === 'mutated' ? 'mutated' : 'random')
+  const sigBase = job.meta.placement ? `catalog:${job.meta.placement}:${job.meta.form}` : (job.meta.kind === 'corpus' ? 'corpus:' + job.meta.name : job.meta.asi !== undefined ? 'asi:' + job.meta.asi : job.meta.kind === 'mutated' ? 'mutated' : job.meta.kind === 'collision' ? 'collision:' + job.meta.collision : 'random')
   if (k !== 'ok-modified') return { out, violations }
   // kind of the input according to V8
   let inputKind = null
@@ -101,7 +101,7 @@ module.exports = {
   rule: 'for every accepted, modified input that V8 itself compiles (as script, else as module), the content must compile in V8 as the same kind (compile only, never run), parse with acorn under the same source type, be accepted by the rewriter\'s own parser when fed back (a refused name collision is the expected answer for its own temporaries), and end with the trailer line. Workload: corpus, catalogue, random programs, 41 ASI/syntax-hazard programs x {LF, CRLF, CR line endings} x all configurations (comments on/off), the syntax zoo under the three line-ending styles (string line continuations, raw line breaks in templates/comments), a CRLF slice of the corpus, and token-mutated programs that V8 still accepts. distinct_nontrivial = distinct (input, config) outputs checked by all three parsers.',
   assumptions: ['V8 of node 20 and acorn 8.16 decide validity; inputs V8 rejects are skipped and counted', 'feeding an output back uses a different prefix so that the collision refusal does not hide a syntax error'],
   plan (ctx) {
-    const shards = [{ kind: 'asi' }]
+    const shards = [{ kind: 'asi' }, { kind: 'collision' }]
     for (const s of structPlan(ctx, { quickCorpus: 320, exec: { quickRandom: 2000, quickFormsPerPlacement: 8, thoroughRandom: 30000 } })) shards.push(s)
     const nMut = ctx.tier === 'thorough' ? 40000 : 4000
     for (let k = 0; k < nMut / 200; k++) shards.push({ kind: 'mutated', count: 200, stream: k })
@@ -113,6 +113,11 @@ module.exports = {
     if (spec.kind === 'asi') {
       js = []
       ASI.forEach((code, i) => { for (const eol of EOLS) for (const [cn, c] of Object.entries(SETS)) js.push({ code: withEol(code, eol), meta: { asi: i + (eol === 'lf' ? '' : ':' + eol), sigBase: 'asi:' + i, module: /^(import|export)\b/m.test(code) }, config: c, cfgKey: cn, cfgName: cn }) })
+    } else if (spec.kind === 'collision') {
+      // programs that mention reserved (or nearly reserved) injected names: refusing is fine, but whatever IS emitted must be valid
+      const C06 = require('./C06')
+      js = []
+      for (const [name, tpl] of C06.COLLISION) for (const n of C06.RES.concat(C06.NEAR)) js.push({ code: C06.wrapCollision(tpl(n), false), meta: { kind: 'collision', collision: name, sigBase: 'collision:' + name, module: false }, config: SETS.FULL, cfgKey: 'FULL', cfgName: 'FULL' })
     } else if (spec.kind === 'mutated') {
       const rng = new Rng(ctx.seed, 'c08mut', spec.stream)
       const base = structJobs({ kind: 'random', count: 40, stream: 500 + spec.stream, cfgNames: Object.keys(SETS) }, ctx)
